@@ -182,6 +182,7 @@ func (a *pwaligner) fillMatrix_SW() (err error) {
 
 	// We initialize first row and first column of the matrix
 	var match, fnew float64
+	var fnew0 float64 // best score of a gap ending at the previous cell of the first row/column
 
 	// First row
 	for j := 0; j < l2; j++ {
@@ -190,12 +191,14 @@ func (a *pwaligner) fillMatrix_SW() (err error) {
 		match = a.matchScore(c1, c2, indexseq1[0], indexseq2[j])
 		fnew = 0.0
 		if j > 0 {
-			fnew = a.matrix[0][j-1]
-			if a.trace[0][j-1] == ALIGN_LEFT {
-				fnew += a.gapextend
-			} else {
-				fnew += a.gapopen
+			// either a new gap after the previous cell, or the extension
+			// of the best gap ending at the previous cell
+			gap := a.matrix[0][j-1] + a.gapopen
+			if j > 1 && fnew0+a.gapextend > gap {
+				gap = fnew0 + a.gapextend
 			}
+			fnew = gap
+			fnew0 = gap
 		}
 		if match > fnew && match > .0 {
 			a.matrix[0][j] = match
@@ -225,12 +228,12 @@ func (a *pwaligner) fillMatrix_SW() (err error) {
 
 		fnew = 0.0
 		if i > 0 {
-			fnew = a.matrix[i-1][0]
-			if a.trace[i-1][0] == ALIGN_UP {
-				fnew += a.gapextend
-			} else {
-				fnew += a.gapopen
+			gap := a.matrix[i-1][0] + a.gapopen
+			if i > 1 && fnew0+a.gapextend > gap {
+				gap = fnew0 + a.gapextend
 			}
+			fnew = gap
+			fnew0 = gap
 		}
 		if match > fnew && match > .0 {
 			a.matrix[i][0] = match
